@@ -411,6 +411,10 @@ ARGS_LOOP:
 							break
 						}
 						value, _ := iterator.PeekNextValue()
+						// The terminator ends option parsing, it is never an optional argument.
+						if value == "--" {
+							break
+						}
 						if _, is := isOption(value, mode, false); is {
 							break
 						}
